@@ -26,6 +26,7 @@ func extra(repo, out string, root, helpers *pkgFiles) {
 		genMergeFacts(out, root)
 		genParseFacts(repo, out, root)
 		genFmtLists(repo, out)
+		genMdFacts(repo, out)
 		if helpers != nil {
 			genPurity(out, root, helpers)
 			genLocks(out, root, helpers)
